@@ -110,6 +110,8 @@
             } else {
                 // the window starts at the first unconsumed byte of the stream: no byte skipped, none shown twice
                 assert!(first as usize == consumed);
+                // and the parser continues in the state it was left in (a frame that straddles two reads is not forgotten)
+                if i > 0 { assert!(st == pv::parse_left(i - 1)); }
             }
             consumed += k;
             if rs != 0 { assert!(i == calls - 1); } // a frame or an error ends read_frame
@@ -119,13 +121,13 @@
         kani::cover!(matches!(res, Some(Ok(_))));
     }
 
-    // @harness ids=C06,C01 tier=thorough kind=bounded stubs=1 bound="two reads of 5 and 7 bytes then EOF; Parser::parse by contract" units=link::reader::Reader::read_frame,link::reader::Reader::read_more_data,link::reader::Reader::parse_buffer timeout=3000 note="stream mode: whatever the parser consumes, it is always shown exactly the received-but-unconsumed bytes of the stream in order (splitting across reads does not change what the parser sees)"
+    // @harness ids=C06,C08,C01 tier=thorough kind=bounded stubs=1 bound="two reads of 5 and 7 bytes then EOF; Parser::parse by contract" units=link::reader::Reader::read_frame,link::reader::Reader::read_more_data,link::reader::Reader::parse_buffer timeout=3000 note="stream mode: whatever the parser consumes, it is always shown exactly the received-but-unconsumed bytes of the stream in order (splitting across reads does not change what the parser sees)"
     #[kani::proof]
     #[kani::unwind(66)]
     #[kani::stub(Parser::parse, Parser::stub_parse)]
     fn vk_c06_read_frame_stream() { read_frame_contract::<5, 7>(false); }
 
-    // @harness ids=C06,C01 tier=quick kind=bounded stubs=1 bound="two datagrams of 5 and 7 bytes then EOF; Parser::parse by contract" units=link::reader::Reader::read_frame timeout=2400 note="datagram mode: when a datagram does not yield a complete frame, buffer AND parser are reset before the next datagram: a frame split across datagrams is never stitched together"
+    // @harness ids=C06,C08,C01 tier=quick kind=bounded stubs=1 bound="two datagrams of 5 and 7 bytes then EOF; Parser::parse by contract" units=link::reader::Reader::read_frame timeout=2400 note="datagram mode: when a datagram does not yield a complete frame, buffer AND parser are reset before the next datagram: a frame split across datagrams is never stitched together"
     #[kani::proof]
     #[kani::unwind(66)]
     #[kani::stub(Parser::parse, Parser::stub_parse)]
